@@ -207,34 +207,47 @@ theorem C13_fixed_point_network (C : Codec K) (hC : C.LawfulOn R) (hD : C.DegLaw
 theorem C13_export_skips_unused (C : Codec K) (n : Net K) : exportNet C (canon n) = exportNet C n :=
   exportNet_canon C n
 
-/-! ## a printer with finitely many digits (`Codec.Printer`: `rd (fmt x) = some (q x)`, `fmt (q x) = fmt x`; the
-    sexagesimal text likewise with its own quantisation `qd`)
+/-! ## a printer with finitely many digits (`Codec.PrinterOn D`: `rd (fmt x) = some (q x)`, `fmt (q x) = fmt x`; the
+    sexagesimal text likewise with its own quantisation `qd`, its two laws required on the domain `D` only)
 
-  `R x := q x = x`, `Rd x := qd x = x` are the numbers the two printers give back exactly; every number read from a
-  printed file is one, so the theorems above apply verbatim to the second, third, … export.  For the first export of
-  arbitrary numbers: -/
+  `R x := q x = x`, `Rd x := D x ∧ qd x = x` are the numbers the two printers give back exactly; every number read from
+  a printed file is one, so the theorems above apply verbatim to the second, third, … export.  For the first export of
+  arbitrary numbers the angular values printed as sexagesimal text must lie in the domain of that printer
+  (`Net.AngIn D`; gama normalises observed angles to [0, 400) gon; a document in gons prints none: `Net.angIn_gons`).
+  `Codec.Printer` = `Codec.PrinterOn (fun _ => True)` is the law without a domain.  The REAL pair of printers
+  (`%.{p}g` and C18's `gon2deg(·, 0, 4)` / `deg2gon`) satisfies `PrinterOn` with `D g := 0 ≤ g ∧ g·0.9 < 2³¹−1`:
+  Props/C13Codec.lean. -/
 
 /-- the exported document does not change when every number of the network is replaced by its printed-and-read value
     (in degrees: the value of an angular observation by `qd`, its standard deviation and covariance rows quantised in
     seconds) -/
-theorem C13_export_quantised {C : Codec K} {q qd : K → K} (P : C.Printer q qd) (n : Net K) :
-    exportNet C (quantNet C q qd n) = exportNet C n :=
-  exportNet_quant P n
+theorem C13_export_quantised {C : Codec K} {D : K → Prop} {q qd : K → K} (P : C.PrinterOn D q qd) (n : Net K)
+    (hD : n.AngIn D) : exportNet C (quantNet C q qd n) = exportNet C n :=
+  exportNet_quant P n hD
 
 /-- reading the export gives the network with every number quantised (`quantNet`: `x ↦ q x`; the latitude through its
-    unit conversion; in degrees `val ↦ qd val`, `stdev ↦ fromSec (q (toSec stdev))`), provided the quantised values still pass the
-    parser's guards (`Net.WF` of the quantised network, decidable).  Gons and degrees. -/
-theorem C13_roundtrip_network_printer {C : Codec K} {q qd : K → K} (P : C.Printer q qd) (impl : Kind → K)
-    (par0 : Params K) (n : Net K) (hw : (quantNet C q qd n).WF C (fun x => q x = x) (fun x => qd x = x)) :
+    unit conversion; in degrees `val ↦ qd val`, `stdev ↦ fromSec (q (toSec stdev))`), provided the angular values printed
+    as sexagesimal text are in the domain `D` of that printer and the quantised values still pass the parser's guards
+    (`Net.WF` of the quantised network, decidable).  Gons and degrees. -/
+theorem C13_roundtrip_network_printer {C : Codec K} {D : K → Prop} {q qd : K → K} (P : C.PrinterOn D q qd) (impl : Kind → K)
+    (par0 : Params K) (n : Net K) (hD : n.AngIn D)
+    (hw : (quantNet C q qd n).WF C (fun x => q x = x) (fun x => D x ∧ qd x = x)) :
     parseNet C impl par0 (exportNet C n) = .ok (canon (quantNet C q qd n)) :=
-  parse_export_net_printer P impl par0 n hw
+  parse_export_net_printer P impl par0 n hD hw
 
 /-- … and exporting that again gives the same document: the export is a fixed point from the first round on -/
-theorem C13_fixed_point_network_printer {C : Codec K} {q qd : K → K} (P : C.Printer q qd) (impl : Kind → K)
-    (par0 : Params K) (n : Net K) (hw : (quantNet C q qd n).WF C (fun x => q x = x) (fun x => qd x = x)) :
+theorem C13_fixed_point_network_printer {C : Codec K} {D : K → Prop} {q qd : K → K} (P : C.PrinterOn D q qd) (impl : Kind → K)
+    (par0 : Params K) (n : Net K) (hD : n.AngIn D)
+    (hw : (quantNet C q qd n).WF C (fun x => q x = x) (fun x => D x ∧ qd x = x)) :
     (parseNet C impl par0 (exportNet C n)).map (exportNet C) = .ok (exportNet C n) := by
-  rw [parse_export_net_printer P impl par0 n hw]
-  simp [Except.map, exportNet_canon, exportNet_quant P n]
+  rw [parse_export_net_printer P impl par0 n hD hw]
+  simp [Except.map, exportNet_canon, exportNet_quant P n hD]
+
+/-- the side condition about the domain is what `Net.WF` says about the angular values of a file in degrees (`Rd ⊆ D`);
+    a document in gons meets it for every `D` -/
+theorem C13_wf_angular_in_domain {C : Codec K} {R Rd D : K → Prop} (n : Net K) :
+    (n.WF C R Rd → (∀ x, Rd x → D x) → n.AngIn D) ∧ (n.par.gons = true → n.AngIn D) :=
+  ⟨fun w h => w.angIn h, Net.angIn_gons D n⟩
 
 /-! ## the adjustment clauses (Model/ExportAdj.lean)
 
@@ -422,16 +435,17 @@ example : (canon sampleNet).points.map (·.id) = ["A", "B"] := by decide
 -- meets the side condition
 example : decCodec.Printer decQ decQd := decCodec_printer
 example : decCodec.rd (decCodec.fmt 1001) = some 1010 := by rw [decCodec_printer.rd_fmt]; rfl
-example : decCodec.rdDeg (decCodec.fmtDeg 123456) = some 123500 := by rw [decCodec_printer.rdDeg_fmtDeg]; rfl
-example : (quantNet decCodec decQ decQd lossyNet).WF decCodec (fun x => decQ x = x) (fun x => decQd x = x) := lossyNet_WF
+example : decCodec.rdDeg (decCodec.fmtDeg 123456) = some 123500 := by rw [decCodec_printer.rdDeg_fmtDeg _ trivial]; rfl
+example : (quantNet decCodec decQ decQd lossyNet).WF decCodec (fun x => decQ x = x) (fun x => True ∧ decQd x = x) := lossyNet_WF
 example : lossyNet.head.ys = true := by decide
 -- output in degrees: an `<obs>` cluster with a direction, a distance, an angle and a full covariance matrix; the
 -- quantised network meets the (decidable) side condition, and the theorem applies to it
 example : lossyNetDeg.par.gons = false := rfl
-example : (quantNet decCodec decQ decQd lossyNetDeg).WF decCodec (fun x => decQ x = x) (fun x => decQd x = x) := lossyNetDeg_WF
+example : (quantNet decCodec decQ decQd lossyNetDeg).WF decCodec (fun x => decQ x = x) (fun x => True ∧ decQd x = x) := lossyNetDeg_WF
+example : lossyNetDeg.AngIn (fun _ => True) := by decide
 example : parseNet decCodec (fun _ => 7) lossyNet.par (exportNet decCodec lossyNetDeg)
     = .ok (canon (quantNet decCodec decQ decQd lossyNetDeg)) :=
-  C13_roundtrip_network_printer decCodec_printer _ _ _ lossyNetDeg_WF
+  C13_roundtrip_network_printer decCodec_printer _ _ _ (by decide) lossyNetDeg_WF
 -- the hypothesis of the exact theorem is decidable: evaluated on the sample network; the parser theorems apply to what
 -- the model reads from the sample network's own export
 example : unaryCodec.ellKnown "wgs84" = true := rfl
